@@ -206,8 +206,45 @@ func bvcmp(op string, a, b T) T {
 	}
 	return app(SBool, op, a, b)
 }
-func add(a, b T) T { return bvbin("bvadd", a, b) }
-func sub(a, b T) T { return bvbin("bvsub", a, b) }
+func litVal(t T) (uint64, bool) {
+	if strings.HasPrefix(t.S, "#x") && !strings.Contains(t.S, " ") {
+		var v uint64
+		if _, err := fmt.Sscanf(t.S[2:], "%x", &v); err == nil {
+			return v, true
+		}
+	}
+	return 0, false
+}
+func add(a, b T) T {
+	if a.Sort == b.Sort {
+		va, oka := litVal(a)
+		vb, okb := litVal(b)
+		switch {
+		case oka && okb:
+			return bv(va+vb, sortWidth(a.Sort))
+		case oka && va == 0:
+			return b
+		case okb && vb == 0:
+			return a
+		}
+	}
+	return bvbin("bvadd", a, b)
+}
+func sub(a, b T) T {
+	if a.Sort == b.Sort {
+		va, oka := litVal(a)
+		vb, okb := litVal(b)
+		switch {
+		case oka && okb:
+			return bv(va-vb, sortWidth(a.Sort))
+		case okb && vb == 0:
+			return a
+		case a.S == b.S:
+			return bv(0, sortWidth(a.Sort))
+		}
+	}
+	return bvbin("bvsub", a, b)
+}
 func ule(a, b T) T { return bvcmp("bvule", a, b) }
 func ult(a, b T) T { return bvcmp("bvult", a, b) }
 func sle(a, b T) T { return bvcmp("bvsle", a, b) }
@@ -248,6 +285,7 @@ type SolveResult struct {
 	Ms     int64
 	Output string // raw output of the winning (or last) solver
 	Model  string
+	Cube   []string // case-split assertions under which a counterexample was found
 }
 
 type solverSpec struct {
@@ -269,6 +307,10 @@ func solverSpecs() []solverSpec {
 		}, "(set-option :produce-models true)\n(set-logic ALL)\n"},
 	}
 }
+
+// procSlots bounds the number of solver processes running at once (one per
+// core), so that wall-clock timeouts keep their meaning under load.
+var procSlots = make(chan struct{}, 16)
 
 // solve races the installed solvers on one query. wantModel adds (get-model)
 // handling: the winning solver's model text is returned when sat.
@@ -297,6 +339,13 @@ func solve(workdir, name, query string, timeoutS, seed int, only string) SolveRe
 				ch <- SolveResult{Status: "error", Solver: sp.name, Output: err.Error()}
 				return
 			}
+			select {
+			case procSlots <- struct{}{}:
+			case <-ctx.Done():
+				ch <- SolveResult{Status: "cancelled", Solver: sp.name}
+				return
+			}
+			defer func() { <-procSlots }()
 			t0 := time.Now()
 			argv := sp.argv(file, timeoutS, seed)
 			cmd := exec.CommandContext(ctx, argv[0], argv[1:]...)
@@ -306,9 +355,19 @@ func solve(workdir, name, query string, timeoutS, seed int, only string) SolveRe
 			_ = cmd.Run()
 			ms := time.Since(t0).Milliseconds()
 			o := out.String()
-			first := strings.TrimSpace(strings.SplitN(o, "\n", 2)[0])
+			first := ""
+			for _, ln := range strings.Split(o, "\n") {
+				ln = strings.TrimSpace(ln)
+				if ln == "" || strings.HasPrefix(ln, "WARNING") {
+					continue
+				}
+				first = ln
+				break
+			}
 			st := "unknown"
 			switch {
+			case strings.Contains(o, "(error"):
+				st = "error"
 			case first == "unsat":
 				st = "unsat"
 			case first == "sat":
@@ -329,14 +388,17 @@ func solve(workdir, name, query string, timeoutS, seed int, only string) SolveRe
 			cancel()
 			go func() { wg.Wait() }()
 			if r.Status == "sat" {
-				if idx := strings.Index(r.Output, "\n"); idx >= 0 {
-					r.Model = r.Output[idx+1:]
+				if idx := strings.Index(r.Output, "sat\n"); idx >= 0 {
+					r.Model = r.Output[idx+4:]
 				}
 			}
 			return r
 		}
 		if r.Status == "error" {
 			errs = append(errs, r.Solver+": "+firstLines(r.Output, 3))
+		}
+		if r.Status == "cancelled" {
+			continue
 		}
 		if last.Status == "" || r.Status == "timeout" || last.Status == "error" {
 			last = r
